@@ -179,3 +179,8 @@ def brac_dur(V, se):
                 out.prove('duration-is-last-minus-first-exceedance', T.seq(res, T.smul(T.ssub(L, F), dt)), extra_hyps=some_h)
                 out.prove('zero-when-nothing-exceeds', T.seq(res, 0), extra_hyps=none_h)
                 out.prove('non-negative', T.sge(res, 0))
+
+
+from pyvc.api import int_variant
+int_variant('C10', 'calc_sig_dur', ['a'])
+int_variant('C10', 'calc_brac_dur', ['a'])
